@@ -108,6 +108,40 @@ fn main() {
                     None => "ERR 9\n".to_string(),
                 }
             }
+            Some("FILL") => {
+                // write numbered lines "<prefix> <k> ffff...f\n" (each far below PIPE_BUF, so a non-blocking write takes
+                // all of a line or nothing) until the pipe has stayed full for 400 ms - the reader at the other end is
+                // stuck - or <max> lines are out; reports how many lines were written
+                let fd: usize = it.next().and_then(|x| x.parse().ok()).unwrap_or(1);
+                let prefix = unhex(it.next().unwrap_or("-"));
+                let max: u64 = it.next().and_then(|x| x.parse().ok()).unwrap_or(1000);
+                let raw = fd as i32;
+                let fl = unsafe { libc::fcntl(raw, libc::F_GETFL) };
+                unsafe { libc::fcntl(raw, libc::F_SETFL, fl | libc::O_NONBLOCK) };
+                let mut n: u64 = 0;
+                let mut full_since: Option<std::time::Instant> = None;
+                while n < max {
+                    let mut line = prefix.clone();
+                    line.extend_from_slice(format!(" {} ", n + 1).as_bytes());
+                    line.extend_from_slice(&[b'f'; 150]);
+                    line.push(b'\n');
+                    let r = unsafe { libc::write(raw, line.as_ptr() as *const libc::c_void, line.len()) };
+                    if r == line.len() as isize {
+                        n += 1;
+                        full_since = None;
+                    } else if r < 0 && std::io::Error::last_os_error().raw_os_error() == Some(libc::EAGAIN) {
+                        let t = *full_since.get_or_insert_with(std::time::Instant::now);
+                        if t.elapsed() >= std::time::Duration::from_millis(400) {
+                            break;
+                        }
+                        std::thread::sleep(std::time::Duration::from_millis(10));
+                    } else {
+                        break; // a partial write or another error: stop, report what is certain
+                    }
+                }
+                unsafe { libc::fcntl(raw, libc::F_SETFL, fl) };
+                format!("ACK {}\n", n)
+            }
             Some("CLOSE") => {
                 let fd: usize = it.next().and_then(|x| x.parse().ok()).unwrap_or(1);
                 if let Some(slot) = fds.get_mut(fd) {
